@@ -248,6 +248,12 @@ def run_join_case(ctx, idx, rng, tmp):
             from vmon.gen import h5layout
             h5layout.add_raw_logs(p, rng)
             ctx.count("inputs_with_raw_h5py_logs")
+        if rng.random() < 0.35:
+            # files of other software need not carry the (optional) event count
+            import h5py as _h5
+            with _h5.File(p, "a") as h5_:
+                h5_.attrs.pop("experiment:event count", None)
+            ctx.count("join_inputs_without_event_count")
         paths.append(p)
     # the order in which the inputs are *given* is independent of their names and times
     given = [paths[i] for i in rng.permutation(len(paths))]
